@@ -503,8 +503,14 @@ func init() {
 			return Outcome{Impl: "(replay prints the model and spec columns; re-run the check for the implementation column)", Model: resp["model"], Spec: resp["spec"], CorrOK: true, OracleOK: true}
 		}}}
 	}
-	register(&Property{ID: "C16", Gen: genC16, Replay: replayEv,
-		Rule: "abstract events -> Spec writer bytes -> real decoders vs model vs what was written: all header fields (incl. 2^32-1 values), format descriptions (server version 0..50 bytes, header-size tables 27..255, algorithms 0/1/255), rotate, query (db 0..255 bytes, SQL to 64KB, status-variable subsets in MySQL's order with arbitrary payloads after the known codes), intvar, rand; every body decoder with and without a trailing checksum; raw checksum stripping for both flavours and unknown algorithms. Non-trivial: event with content"})
+	register(&Property{ID: "C16", Gen: genC16, Extra: extraC16,
+		Replay: func(line string) []Case {
+			if strings.HasPrefix(line, "hist ") {
+				return replayHist(line)
+			}
+			return replayEv(line)
+		},
+		Rule: "abstract events -> Spec writer bytes -> real decoders vs model vs what was written: all header fields (incl. 2^32-1 values), format descriptions (server version 0..50 bytes, header-size tables 27..255, algorithms 0/1/255), rotate, query (db 0..255 bytes, SQL to 64KB, status-variable subsets in MySQL's order with arbitrary payloads after the known codes), intvar, rand; every body decoder with and without a trailing checksum; raw checksum stripping for both flavours and unknown algorithms; multi-file histories (a format description per file) with and without CRC32 through the real parseEvents. Non-trivial: event with content"})
 	register(&Property{ID: "C15", Gen: genC15, Replay: replayEv,
 		Rule: "table maps of 1..600 columns (incl. counts >= 251) over all supported types/metadata, names up to 255 bytes, every nullability bitmap, 4/6-byte ids, random optional metadata, with/without checksum; raw length-encoded integers and metadata reads; (parser level) attribution histories over integer-heavy tables of mixed signedness with partial images, re-announcements inside and across transactions, re-definitions of an id (same names, other types) and re-definitions that change the column count (must be rejected); mapper asked once per id. Non-trivial: more than one column",
 		Extra: func(c *Collector, r *RNG, tier string) { extraC15(c, r, tier) }})
